@@ -5,6 +5,7 @@ open Neutrino.Shutdown
 #print axioms C17_sites
 #print axioms C17_rule_counts
 #print axioms C17_stop_order
+#print axioms C17_waitgroup_balanced
 #print axioms C17_close_before_wait
 #print axioms C17_comps_in_order
 #print axioms C17_cond_wakers
